@@ -213,7 +213,7 @@ LEVEL_TEXT = {
                      'ERR_BAD_USAGE exactly for the documented invalid requests, OK_ROOT_IS_NULL on a storage without root.',
                 note='Bounds: shapes T0, T0d, T1(1), T1(2), T3(2;1,1) quick; T1(3), T3(2;1,2) thorough; endpoint keys 0..10 bytes (one harness: 0..264 bytes, the lengths that do not fit key_length_type); '
                      'stored keys 0..8 bytes with the first two bytes of the slice symbolic. Two-layer shapes (T2) are NOT decided: the recursive layer scan did not finish in 1500 s, so endpoint translation '
-                     'between layers and the reproduced defect F2 (C05) are outside this check. WARN_STORAGE_NOT_EXIST by name is decided under C13. Found and fixed: INF did not ignore l_key (known_findings.json).',
+                     'between layers is outside this check. WARN_STORAGE_NOT_EXIST by name is decided under C13. Found and fixed: INF did not ignore l_key (known_findings.json).',
                 ref='DESIGN.md 11/C03'),
     'C13': dict(text='The directory of storages is built directly (a root border whose values are tree_instance objects, as create_storage leaves it) with symbolic names; then one real call BY NAME: '
                      'find_storage, data get, data put, list_storages. Asserted: lookup succeeds with the right instance iff the name exists, WARN_STORAGE_NOT_EXIST otherwise; a key of one storage is not '
@@ -223,8 +223,9 @@ LEVEL_TEXT = {
     'C05': dict(text='(a) get: the real get (miss, with checked_version) followed by the real insert of the missed key, from an arbitrary valid state of T1(1), T1(3) and the empty deleted root: the pair is non-null and stale afterwards. '
                      '(b) scan: the real scan with node_version_vec under a fully symbolic request (interval, max_size, direction), then the real insert of a symbolic ABSENT key of the covered interval '
                      '(for a size-limited read: between its start and the last entry produced): some collected (version, node) pair is stale; the set is never empty for an existing storage (also on the empty deleted root).',
-                note='Bounds: T1(1) quick, T1(2) and T3(2;1,1) thorough for (b); keys 0..8 bytes. NOT decided: reads that end on / inside a next-layer link (two-layer shapes do not finish, see C03) - the pinned tree has a reproduced '
-                     'defect exactly there (DESIGN.md section 7, F2: empty / incomplete set) which this check therefore cannot see; and the iscan part (C10 is not decidable with this pipeline).', ref='DESIGN.md 4/C05, 11'),
+                note='Bounds: T1(1) quick, T1(2) and T3(2;1,1) thorough for (b); keys 0..8 bytes. NOT decided: reads that end on / inside a next-layer link (two-layer shapes do not finish, see C03) - the pinned tree had a '
+                     'defect exactly there (F2: empty / incomplete set), shown on the real build through the public API and fixed (known_findings.json), which this check cannot see; '
+                     'and the iscan part (C10 is not decidable with this pipeline).', ref='DESIGN.md 4/C05, 11'),
     'C11': dict(text='Release is decided with a ghost allocator (every operator new/delete variant tracked: live count, sized/aligned delete match, double free): fin() draining retired objects also with a session left open, and per-operation accounting of put/remove (nothing freed in place, failed unique insert leaves nothing behind).',
                 note='Dropping whole trees (border_node::destroy / interior_node::destroy: harness/n_misc.cpp H_c11_drop_*) produced 18k VCCs / 3.6M SAT variables and is not registered; the API-level destroy()/delete_storage()/create_storage() paths (scan over the storages tree, std::string keys) and cursor objects are outside this check; '
                      'the lost root-creation race is outside (kind S on put did not fit the budget).', ref='DESIGN.md 4/C11'),
